@@ -398,7 +398,7 @@ def toDiag (p : ℝ × ℝ) : ℝ := |p.2 - p.1| / Real.sqrt 2
 /-- **the value never exceeds twice the 1-Wasserstein distance**: for unit directions (every
     `(cos θ, sin θ)` is one) it is at most twice the cost of *every* partial matching between the two
     diagrams (Euclidean distance between matched points, `|d − b|/√2` for points sent to the diagonal),
-    hence at most twice the least such cost (`sw_le_two_w1'`). -/
+    hence at most twice the least such cost (`sw_le_two_w1_min`). -/
 theorem sw_le_two_w1 {dd : ℝ × ℝ} {s c : ℝ} (h : Diag dd s c) (dirs : List (ℝ × ℝ)) (hne : dirs ≠ [])
     (hunit : ∀ d ∈ dirs, d.1 * d.1 + d.2 * d.2 = 1) (PD1 PD2 : Dgm)
     (m : Spec.PM (Fin PD1.length) (Fin PD2.length)) :
@@ -423,7 +423,7 @@ theorem sw_le_two_w1 {dd : ℝ × ℝ} {s c : ℝ} (h : Diag dd s c) (dirs : Lis
   linarith
 
 /-- in terms of the Wasserstein distance itself (the minimum cost over all partial matchings) -/
-theorem sw_le_two_w1' {dd : ℝ × ℝ} {s c : ℝ} (h : Diag dd s c) (dirs : List (ℝ × ℝ)) (hne : dirs ≠ [])
+theorem sw_le_two_w1_min {dd : ℝ × ℝ} {s c : ℝ} (h : Diag dd s c) (dirs : List (ℝ × ℝ)) (hne : dirs ≠ [])
     (hunit : ∀ d ∈ dirs, d.1 * d.1 + d.2 * d.2 = 1) (PD1 PD2 : Dgm) (w : ℝ)
     (hw : Spec.IsMinSum (M := Fin PD1.length) (N := Fin PD2.length)
       (fun i j => euclid (PD1.get i) (PD2.get j)) (fun i => toDiag (PD1.get i))
